@@ -40,13 +40,14 @@ LIBM = {"powf", "exp", "exp2", "ln", "log2", "log10", "cbrt", "hypot", "sin", "c
         "atan", "atan2", "sin_cos", "exp_m1", "ln_1p", "sinh", "cosh", "tanh", "acosh", "asinh", "atanh"}
 # entries that are decided only in the thorough tier (measured slow) / with their own caps
 THOROUGH = {
-    ("string", "contains"), ("string", "find"), ("string", "rfind"),
+    ("string", "find"), ("string", "rfind"),
     ("string", "trim_start_matches"), ("string", "trim_end_matches"),
 }
 # entries that did not finish under the thorough cap in this sandbox (recorded as uncovered)
 INFEASIBLE = {
     ("float", "parse"): "dec2flt on a symbolic string: CBMC out of memory (12 GB) after 94 s",
     ("int", "pow"): "64-bit symbolic multiply chain (exponentiation by squaring): no verdict in 9 min",
+    ("string", "contains"): "str::contains (TwoWaySearcher) on two symbolic strings: no verdict in 25 min at 12 GB (find/rfind, the same searcher with an index result, are decided in about 8 min each)",
     ("char", "is_alphabetic"): "core::unicode skip_search table walk (binary search + run loop up to 1519 entries): unwinding bound out of reach; std code, specified panic-free",
     ("char", "is_alphanumeric"): "core::unicode skip_search table walk: unwinding bound out of reach; std code, specified panic-free",
     ("char", "is_numeric"): "core::unicode skip_search table walk: unwinding bound out of reach; std code, specified panic-free",
